@@ -57,13 +57,14 @@ static void body(const Line& t, Out& o, long& retained) {
   switch ((int)t.at(0)) {
   case 1: { need_free(t.at(1));
     const int arena = 1 + (int)(((long)t.at(1) % 3 + 3) % 3);
-    regs[(long)t.at(1)].reset(make((int)t.at(2), (long)t.at(3), (long)t.at(4), arena));
+    std::unique_ptr<Obj> p(make((int)t.at(2), (long)t.at(3), (long)t.at(4), arena));
+    regs[(long)t.at(1)] = std::move(p);
     retained = get(t.at(1)).retained(); break; }
   case 2: { Obj& s = get(t.at(1)); s.update((int64_t)t.at(2), (int64_t)t.at(3), t.at(4) != 0, o); retained = s.retained(); break; }
-  case 3: { need_free(t.at(1)); Obj& s = get(t.at(2)); regs[(long)t.at(1)].reset(s.copy()); retained = get(t.at(1)).retained(); break; }
+  case 3: { need_free(t.at(1)); Obj& s = get(t.at(2)); { std::unique_ptr<Obj> p(s.copy()); regs[(long)t.at(1)] = std::move(p); } retained = get(t.at(1)).retained(); break; }
   case 4: { need_free(t.at(1)); Obj& s = get(t.at(2));
     check_follow(t, 3, t.at(2));
-    regs[(long)t.at(1)].reset(s.move_out());
+    { std::unique_ptr<Obj> p(s.move_out()); regs[(long)t.at(1)] = std::move(p); }
     follow_up(t, 3, t.at(2)); retained = get(t.at(1)).retained(); break; }
   case 5: { Obj& r = get(t.at(1)); Obj& s = get(t.at(2)); r.copy_assign(s); retained = r.retained(); break; }
   case 6: { Obj& r = get(t.at(1)); Obj& s = get(t.at(2));
@@ -81,7 +82,7 @@ static void body(const Line& t, Out& o, long& retained) {
   case 12: { Obj& r = get(t.at(1)); r.trim(); retained = r.retained(); break; }
   case 13: { Obj& a = get(t.at(1)); Obj& b = get(t.at(2)); Obj& c = get(t.at(3)); b.copy_assign(c); a.copy_assign(b); retained = a.retained(); break; }
   case 15: { Obj& r = get(t.at(1)); r.query(); retained = r.retained(); break; }
-  case 16: { need_free(t.at(1)); Obj& s = get(t.at(2)); regs[(long)t.at(1)].reset(s.roundtrip()); retained = get(t.at(1)).retained(); break; }
+  case 16: { need_free(t.at(1)); Obj& s = get(t.at(2)); { std::unique_ptr<Obj> p(s.roundtrip()); regs[(long)t.at(1)] = std::move(p); } retained = get(t.at(1)).retained(); break; }
   default: throw std::invalid_argument("unknown op");
   }
 }
@@ -93,7 +94,7 @@ static void handler(const Line& t, Out& o) {
   if (op == 99) {
     s.flags = 0; regs.clear();
     o.R(s.live_items); o.R(s.item_slots); o.R(s.live_bytes); o.R((I)s.blocks.size()); o.R(s.flags & HYGIENE);
-    s.flags = 0; return;
+    reset_tracking(); return;
   }
   if (op == 14) { Obj& r = get(t.at(1)); s.flags = 0; const uint64_t d = r.digest(); o.R((I)d); o.R(r.retained()); o.R(s.live_items); o.R(s.item_slots); o.R(s.flags & HYGIENE); return; }
   s.flags = 0;
@@ -108,5 +109,5 @@ static void handler(const Line& t, Out& o) {
 }
 
 int main(int argc, char** argv) {
-  return vh::run_main(argc, argv, [] { regs.clear(); pending_arm = -1; st().flags = 0; st().throw_countdown = -1; }, handler);
+  return vh::run_main(argc, argv, [] { regs.clear(); pending_arm = -1; reset_tracking(); }, handler);
 }
